@@ -64,6 +64,16 @@ class Func:
         return [x.arg for x in a.posonlyargs + a.args]
 
     @property
+    def is_static(self):
+        return 'staticmethod' in self.decorators
+
+    def bound_params(self):
+        """positional parameters as seen by a caller (without self / cls)"""
+        if self.cls is not None and not self.is_static:
+            return self.params[1:]
+        return self.params
+
+    @property
     def all_params(self):
         a = self.node.args
         r = [x.arg for x in a.posonlyargs + a.args + a.kwonlyargs]
